@@ -169,4 +169,19 @@ INVARIANT NormalizeModel
         kind = evid.split(":")[0]
         return f"{PID}/{'+'.join(sorted(set(c.split('.', 1)[1] for c in clauses)))}/{kind}/ver{df.ver_of(evid) if kind in ('c', 'g') else evid.split(':')[-1].split('.')[0] if kind in ('p', 'fixed') else df.ver_of(evid)}"
 
+    def corrupt(e):
+        if not e.get("has_c0") or e["out"]["exc"] or not e["c0"]["cpy_lines"]:
+            return None
+        e["c0"]["cpy_lines"][0] += 1       # the original code "had" another line
+        return e
+
+    df.negative_control(rep, files, "Trace_Encode", corrupt, ("P05.sem",))
+
+    def corrupt_x(e):
+        if e.get("kind") != "exec" or not e["b"]["events"]:
+            return None
+        e["b"]["events"] = e["b"]["events"][:-1]
+        return e
+
+    df.negative_control(rep, exec_files, "Trace_Exec", corrupt_x, ("P05.exec.events",))
     df.classify(rep, fails, ("P05.",), PID, keyfn)
